@@ -150,7 +150,7 @@ def conc_phase(ctx):
                            "distinct_states": dist, "states_generated": g})
     shutil.rmtree(md, ignore_errors=True)
     vdr = vlib.build_driver(d, race=True)
-    nq = 64 if tier == "quick" else 512
+    nq = 128 if tier == "quick" else 1024
     scens = (gens.gen_paths(seed, "quick")[:nq // 2] + gens.gen_repeat(seed, "quick")[:nq // 4]
              + gens.gen_text(seed, "quick")[:nq // 8] + gens.gen_html(seed, "quick")[:nq // 16] + gens.gen_json(seed, "quick")[:nq // 16])
     if tier != "quick":
@@ -162,7 +162,7 @@ def conc_phase(ctx):
         ctx["hashes"].add(vlib.scen_hash(ops))
         if i % 37 == 1 and len(ctx["samples"]) < 6:
             ctx["samples"].append({"source": "concurrent owner scenario", "ops": ops})
-    rounds = 4 if tier == "quick" else 12
+    rounds = 5 if tier == "quick" else 30
     group = 16 if tier == "quick" else 64
     tp = os.path.join(d, "trace.ndjson")
     env = vlib.goenv()
